@@ -57,3 +57,38 @@ def lowercase_collision(res, prop, findings):
         res.known("%s %s: %s" % (hit[0]["id"], hit[0]["class"], hit[0]["what"]))
     else:
         res.violation({"kind": "spec-violation", "what": what, "files": sorted(os.listdir(os.path.join(gr.moddir, "kfcase")))})
+
+
+def element_struct_markers(res, prop, findings):
+    """D37: markers written on the fields of an anonymous struct that is the ELEMENT type of a slice / array / map, or the
+    pointee of a pointer, are collected by nobody: the written rule is silently ignored."""
+    import genfam
+    from synth import T, basic, case, fld, scenario, set_coll, set_str, struct
+    s = basic("string")
+    elems = T("[]struct {\n\t\t//govalid:required\n\t\tSKU string\n\t}", "TSlice", "coll")
+    st = struct("Order", [fld("Customer", ["//govalid:required"], s), fld("Lines", [], elems)],
+                [case([set_str("Customer", b"c"), set_coll("Lines", False, 2)]), case([set_str("Customer", b"c"), set_coll("Lines", False, 0)])])
+    gr = genfam.GenRun(res, {"scenarios": [scenario("kfelem", [st])]}, "kfelem")
+    if not gr.generate() or gr.gen_status != 0:
+        res.violation({"kind": "generation-failed", "what": "govalid failed on a struct with a slice of anonymous structs", "log_tail": getattr(gr, "gen_log", "")[-1500:]})
+        return
+    gr.translate()
+    ok, errs = gr.go_vet_build()
+    if not ok:
+        res.violation({"kind": "compile-error", "what": "the code generated for a struct with a slice of anonymous structs does not compile", "compiler": str(errs)[:1500]})
+        return
+    obs = gr.drive()
+    if obs is None:
+        return
+    with_zero_elements = obs.get("kfelem/Order/0", {}).get("VT")
+    empty = obs.get("kfelem/Order/1", {}).get("VT")
+    res.coverage["element_struct_markers"] = {"two_zero_elements": with_zero_elements, "no_elements": empty}
+    if empty != "nil":
+        res.violation({"kind": "spec-violation", "what": "a valid Order (no lines) is rejected", "observed": empty})
+    if with_zero_elements == "nil":
+        hit = [f for f in findings if f.get("class") == "kf_marker_in_element_struct"]
+        if hit:
+            res.known("%s %s: %s" % (hit[0]["id"], hit[0]["class"], hit[0]["what"]))
+        else:
+            res.violation({"kind": "spec-violation", "what": "Lines []struct{ //govalid:required SKU string } with two zero elements is accepted: the written rule is never checked",
+                           "source": open(gr.meta[0]["file"]).read()[:3000] if gr.meta and gr.meta[0].get("file") else None})
